@@ -5,6 +5,8 @@ import FqModel.Serial.Text
 import FqModel.Serial.Msgpack
 import FqModel.Serial.Cbor
 import FqModel.Serial.Bencode
+import FqModel.Serial.Bson
+import FqModel.Serial.Json
 /-! driver for C16
 
   `<format> <hex of the input> <kind> <source value>` TAB `<observation of fq -d <format> torepr>`
@@ -40,6 +42,9 @@ def models (fmt : String) : Option ((Bytes → Res (V × Bytes)) × Option (Byte
   | "msgpack" => some (Msgpack.decode, none, "")
   | "cbor" => some (Cbor.decode, some Cbor.decodeFixed, "cbor-indef-string-break")
   | "bencode" => some (Bencode.decode, none, "")
+  | "bson" => some (Bson.decode, none, "")
+  | "json" => some (Json.decode, none, "")
+  | "jsonl" => some (Json.decodeLines, none, "")
   | _ => none
 
 def expected (kind : String) (src : V) (input : Bytes) : Option String :=
@@ -73,6 +78,13 @@ partial def hasBomString (anywhere : Bool) : V → Bool
   | .map kvs => kvs.any (fun (k, v) => hasBomString anywhere k || hasBomString anywhere v)
   | _ => false
 
+/-- bson known finding `bson-string-nul-cut`: the source has a string with an embedded NUL -/
+partial def hasNulString : V → Bool
+  | .str s => s.contains 0
+  | .arr xs => xs.any hasNulString
+  | .map kvs => kvs.any (fun (_, v) => hasNulString v)
+  | _ => false
+
 def stepC16 (op obs : String) : String :=
   match words op with
   | [fmt, hex, kind, srcs] =>
@@ -94,6 +106,11 @@ def stepC16 (op obs : String) : String :=
             if known then s!"KNOWN {key} expected={exp}"
             else if m == obs && hasBomString (fmt == "cbor") src && kind != "trunc" && kind != "bad" then
               s!"KNOWN utf8-bom-stripped expected={exp}"
+            else if fmt == "msgpack" && m == obs && (input.head? == some 0xc8 || input.head? == some 0xc9)
+                && kind != "trunc" && kind != "bad" then
+              s!"KNOWN msgpack-ext-length expected={exp}"
+            else if fmt == "bson" && m == obs && hasNulString src && kind != "trunc" && kind != "bad" then
+              s!"KNOWN bson-string-nul-cut expected={exp}"
             else s!"PROPFAIL expected={exp}{div}"
     | none, _, _ => "BADOP format"
     | _, none, _ => "BADOP hex"
